@@ -278,7 +278,7 @@ def run_task(task):
 
 
 def plan(tier, seed):
-    total = 5000 if tier == "quick" else 100000
+    total = 16000 if tier == "quick" else 200000
     workers = 16
     return [{"n": -(-total // workers), "seed": seed * 1000 + w} for w in range(workers)]
 
